@@ -221,7 +221,7 @@ func trueEdgeDominates(fn *ssa.Function, v ssa.Value, at ssa.Instruction) bool {
 
 // THR-PENDING / THR-ONCE: throttle accounting.
 func ruleThrottle(w *World, r *Report) {
-	r.Rule("THR-PENDING", "in Throttle.Submit the pending limit test and the increment of `pending` lie in one critical section; the decrement is dominated by the increment and no path decrements twice", 2)
+	r.Rule("THR-PENDING", "in Throttle.Submit the pending limit test and the increment of `pending` lie in one critical section; the decrement is dominated by the increment, no path decrements twice, and every path from the increment to an exit passes the decrement (`pending` is what Pending() reports as the number of waiting submissions)", 2)
 	r.Rule("THR-ONCE", "in Throttle.Submit the breaker is retried only on the not-attempted edge of the previous Do (with BRK-ATTEMPTED: a submitted function runs at most once)", 1)
 	fn := w.Method("core", "Throttle", "Submit")
 	e := newLocksetEngine(w, guardsBreakers())
@@ -297,7 +297,9 @@ func ruleThrottle(w *World, r *Report) {
 		// informational: increment without decrement
 		_, leak := mustFollow(fn, isInc, isDec)
 		if len(leak) > 0 {
-			r.info("THR-PENDING", key+" increment-leak", w.PosOf(leak[0].Exit), "a path returns after the increment without the decrement (over-count: only makes the throttle stricter; tooMany && disabled)")
+			r.violation("THR-PENDING", key+" increment-leak", w.PosOf(leak[0].Exit), "a path returns after the increment without the decrement: a submission that was turned away stays counted for ever, Pending() reports more than limit+1 with nothing waiting, and once the count has drifted past the limit every later submission overflows", blockPathString(w, leak[0].Path)...)
+		} else {
+			r.ok("THR-PENDING", key+" increment-leak", w.PosOf(inc[0]), "every path from the increment to an exit passes the decrement")
 		}
 	}
 	// THR-ONCE
